@@ -356,7 +356,7 @@ class NITFHeader0(NITFElement):
             value = value.decode('utf-8')
         if not isinstance(value, str):
             raise TypeError('FVER is required to be a string')
-        if len(value) != 5:
+        if len(value.encode('utf-8')) != 5:
             raise ValueError('FVER must have length 5')
         if value not in ['02.00', '01.10']:
             logger.warning('Got unexpected version {}, and NITF parsing is likely to fail.'.format(value))
